@@ -280,9 +280,9 @@ theorem uint_lt (bits : Nat) (s : Bytes) (v : Nat) (h : parseUint10 bits s = som
   all_goals (try omega)
 
 /-- **uid_dev_ranges** (3): an accepted dev= value has type b or c, a 32-bit major and an
-    8-bit minor (the minor width is the code's; the manual gives none, see C07) -/
+    20-bit minor (the kernel.s minor width, fix 25c634b under C07) -/
 theorem dev_range (s : Bytes) (t mj mn : Nat) (h : parseDev s = ((t, mj, mn), false)) :
-    (t = 98 ∨ t = 99) ∧ mj < 2 ^ 32 ∧ mn < 2 ^ 8 := by
+    (t = 98 ∨ t = 99) ∧ mj < 2 ^ 32 ∧ mn < 2 ^ 20 := by
   unfold parseDev at h
   split at h
   · simp at h
@@ -350,7 +350,7 @@ theorem uid_digits (s : Bytes) (hne : s ≠ []) (hd : s.all isDigit = true) :
     split <;> simp_all <;> (intro h; omega)
 
 example : parseUid b!"250:7" = .ok (250, some 7) ∧ parseUid b!"2147483648" = Res.err "baduid" ∧
-    parseDev b!"c4:255" = ((99, 4, 255), false) ∧ (parseDev b!"c4:256").2 = true := by
+    parseDev b!"c4:300" = ((99, 4, 300), false) ∧ (parseDev b!"c4:1048576").2 = true := by
   refine ⟨by rfl, by rfl, by rfl, by rfl⟩
 
 /-! ### mod= values have the effect chmod(1) would have -/
